@@ -127,6 +127,27 @@ Declarative(E, V, th, kr, g, fder, sel, kres) ==
    IF kres THEN [k \in 1..Len(E) |-> Normalise(rows[k], g, fder, 1)]
    ELSE <<Normalise(SumRows(rows, Len(E)), g, fder, Len(E))>>
 
+(* representation-free bounds of the sea (used where a level lies inside the energy span of a group, i.e. where
+   NoLevelInsideGroupK fails): whole groups only, every band at most once, any representative energy of a group.
+   A group whose TOP band energy is <= the level is counted, one whose BOTTOM band energy is > the level is not, a group that
+   contains the level may or may not be counted: lower / upper = fixed part + sum of the negative / positive optional
+   group values (for non-negative values: groups with top <= x  ...  groups with bottom <= x).  Units 1/SELUNIT. *)
+SeaBoundK(Ek, Vk, th, kr, sel, Q, x, upper) ==
+   LET B == Borders(Ek, th, kr)
+       T[j \in 0..Len(B)] ==
+          IF j = 0 THEN 0
+          ELSE LET c == GroupValue(Vk, B[j]) * WSel(B[j], sel) IN
+               T[j - 1] + (IF Ek[B[j][2]] * Q <= x THEN c
+                           ELSE IF Ek[B[j][1] + 1] * Q <= x THEN (IF upper THEN (IF c > 0 THEN c ELSE 0) ELSE (IF c < 0 THEN c ELSE 0))
+                           ELSE 0)
+   IN T[Len(B)]
+SeaBoundRowK(Ek, Vk, th, kr, sel, g, upper) == [i \in 1..g.n |-> SeaBoundK(Ek, Vk, th, kr, sel, g.Q, g.a + (i - 1) * g.d, upper)]
+(* the lowest level of the (extended) grid lies inside a group and at least one band of that group is strictly below it: the
+   bands below the scan that already belong to a group of the scan must not be counted twice *)
+LowestLevelInsideGroupK(Ek, th, kr, g, fder) ==
+   \E gp \in {Borders(Ek, th, kr)[j] : j \in 1..Len(Borders(Ek, th, kr))} :
+       Ek[gp[1] + 1] * g.Q < EFminN(g, fder) /\ EFminN(g, fder) <= Ek[gp[2]] * g.Q
+
 RSumK(rows, i, nk) == LET T[k \in 0..nk] == IF k = 0 THEN RZero ELSE RAdd(T[k - 1], rows[k][i]) IN T[nk]
 
 (* a stencil is the n-th central difference iff it is exact on polynomials of degree <= n+1 : applied to x^k on the integer
